@@ -11,6 +11,7 @@ import itertools
 
 from sa.absint import Interp, Obj, Residual
 from sa.index import AnalysisError
+from . import common as K
 
 BLANK_LAST = "blank_last"
 INCLUDES = "includes"
@@ -45,13 +46,14 @@ def rows(idx):
                     handlers={"self.matches": h_matches, "self.stop": rec("stop"), "self.raise_match_count_if": rec("raise_match_count_if"),
                               "self.line_monitor.is_last_line_and_blank": const("blank_last", blank_last),
                               "self.scanner.includes": const("includes", includes), "self.scanner.is_last": const("is_last", is_last)})
-        store = {"self.advance_count": adv, "self.scan_count": 5, "self.match_count": 3, "self._current_match_count": 0,
+        store = {"self.advance_count": adv, "self.scan_count": 5, "self.match_count": 3, "self." + K.names(idx)["cmc"]: 0,
                  "self.skip_blank_lines": skip_blank, "self.collect_when_not_matched": cwnm}
         line = [] if empty else ["x", "y"]
         ps = it.run_all(fi, args={"line": line}, store=store)
         if len(ps) != 1:
             raise AnalysisError(f"_consider_line depends on something outside the model: {ps[0].summary()['choices']}")
         ps[0].cfg = cfg
+        ps[0].__dict__["names"] = K.names(idx)
         out.append((adv, ps[0]))
     return fi, out
 
@@ -73,9 +75,10 @@ def facts(adv, p):
         n_raise=len(p.calls("raise_match_count_if")),
         scan_sets=p.sets("self.scan_count"),
         adv_sets=p.sets("self.advance_count"),
-        cmc_sets=p.sets("self._current_match_count"),
-        freeze_sets=p.sets("self._freeze_path"),
+        cmc_sets=p.sets("self." + p.__dict__.get("names", {}).get("cmc", "_current_match_count")),
+        freeze_sets=p.sets("self." + p.__dict__.get("names", {}).get("frozen", "_freeze_path")),
         result=p.result,
-        order=[(k, kk) for k, kk, v in p.trace if k in ("call", "set") and not kk.startswith("consult:")],
+        # (the freeze store is reported under its canonical name whatever the attribute is called today)
+        order=[(k, "self._freeze_path" if kk == "self." + p.__dict__.get("names", {}).get("frozen", "_freeze_path") else kk) for k, kk, v in p.trace if k in ("call", "set") and not kk.startswith("consult:")],
     )
     return d
